@@ -21,19 +21,19 @@ def run(tier: str, keep: bool = False) -> int:
     fam = ('Numbered({ [SoloBase(2, 1, 3) EXCEPT !.mode = m, !.dstShape = sh, !.dstOld = <<9, 9, 9, 9, 9>>, !.disp = d, !.chk = k] : '
            'm \\in {"ACK", "UNACK"}, sh \\in {"file", "existing", "dir", "direxisting"}, d \\in BOOLEAN, k \\in %s })'
            % ('{"CRC32"}' if q else '{"CRC32", "NULL"}'))
-    r.solo("writes", "D", fam, ["fd", "fdodd", "eof", "eofodd", "eofcancel", "poll", "cancel"], 5 if q else 6, props, pre=[["md"]],
-           limit=6000 if q else 200000)
+    r.solo("writes", "D", fam, ["fd", "fdodd", "eof", "eofodd", "eofcancel", "poll", "cancel"], 5, props, pre=[["md"]],
+           limit=6000 if q else 60000)
     r.solo("nomd", "D", 'Numbered({ [SoloBase(2, 1, 2) EXCEPT !.mode = m, !.dstShape = sh, !.dstOld = <<9, 9, 9>>] : m \\in {"ACK", "UNACK"}, '
                         'sh \\in {"file", "existing"} })', ["md", "mdonly", "fd", "fdodd", "eof", "poll", "ack"], 4 if q else 5, props,
-           limit=4000 if q else 200000)
+           limit=4000 if q else 60000)
     # a filestore that refuses to create / truncate the destination file or to write: nothing may appear anywhere
     r.solo("rejected", "D", 'Numbered({ [SoloBase(2, 1, 2) EXCEPT !.mode = m, !.dstShape = sh, !.dstOld = <<9, 9, 9>>, !.fhD = [FhDefault EXCEPT '
                             '!.FILESTORE_REJECTION = f]] : m \\in {"ACK", "UNACK"}, sh \\in {"file", "existing", "dir"}, f \\in {"ignore", "cancel"} })',
-           ["md", "mdwrej", "fd", "wrej", "eof", "poll"], 4 if q else 5, props, limit=4000 if q else 200000)
+           ["md", "mdwrej", "fd", "wrej", "eof", "poll"], 4 if q else 5, props, limit=4000 if q else 60000)
     # cancel requests and late PDUs after the file is complete (Finished sent, its ACK outstanding): the file stays
     r.solo("late", "D", 'Numbered({ [SoloBase(1, 1, 2) EXCEPT !.dstShape = sh, !.dstOld = <<9, 9, 9>>, !.disp = d] : '
                         'sh \\in {"file", "existing"}, d \\in BOOLEAN })', ["poll", "cancel", "ack", "tick", "fd", "eof", "eofcancel"],
-           7 if q else 8, props, pre=[["md"], ["fd"], ["eof"]], limit=4000 if q else 200000)
+           7 if q else 8, props, pre=[["md"], ["fd"], ["eof"]], limit=4000 if q else 60000)
     r.driver("dst_random", 500 if q else 8000, props, indD=IND_DEFAULT)
     r.driver("dst_grid", 400 if q else 6000, ["C05", "C06", "C10"])
     r.schedules("pairK1", 'FamAll(3, {1, 3}, {"CRC32"})', ["C01", "C05", "C10"], K=1, faults=["drop", "dup", "swap", "flip"])
